@@ -244,7 +244,20 @@ pub fn gen_c26_for(property: &str, run_seed: u64) -> Result<Scenario, String> {
             None => continue,
         };
         let body = &m.funcs[(func - m.num_imp_funcs()) as usize].body;
-        let mode = *rng.pick(&[Mode::Before, Mode::After, Mode::Before, Mode::After, Mode::BlockEntry, Mode::BlockExit, Mode::FuncEntry, Mode::FuncExit, Mode::SemanticAfter]);
+        let mode = *rng.pick(&[
+            Mode::Before,
+            Mode::After,
+            Mode::Before,
+            Mode::After,
+            Mode::BlockEntry,
+            Mode::BlockExit,
+            Mode::FuncEntry,
+            Mode::FuncExit,
+            Mode::SemanticAfter,
+            // replacements and removals of plain instructions (the encodings are compared, not validated)
+            Mode::Alternate,
+            Mode::EmptyAlternate,
+        ]);
         let idxs: Vec<u32> = (2..body.len() as u32)
             .filter(|i| {
                 let ins = &body[*i as usize];
@@ -252,6 +265,7 @@ pub fn gen_c26_for(property: &str, run_seed: u64) -> Result<Scenario, String> {
                 match mode {
                     Mode::Before => true,
                     Mode::After => !last,
+                    Mode::Alternate | Mode::EmptyAlternate => !last && !ins.is_block_style() && !matches!(ins, Ins::End | Ins::Else),
                     Mode::BlockEntry | Mode::BlockExit => ins.is_block_style(),
                     Mode::SemanticAfter => ins.is_block_style() && !matches!(ins, Ins::Loop(_)),
                     _ => false,
@@ -275,12 +289,18 @@ pub fn gen_c26_for(property: &str, run_seed: u64) -> Result<Scenario, String> {
         let site = Site {
             instr,
             mode,
-            body: vec![Ins::I32Const(magic), Ins::Drop],
-            magic,
+            body: if mode == Mode::EmptyAlternate { vec![] } else { vec![Ins::I32Const(magic), Ins::Drop] },
+            magic: if mode == Mode::EmptyAlternate { 0 } else { magic },
             tag: None,
             clear: false,
         };
-        let use_inject_at = rng.chance(1, 3) && !matches!(mode, Mode::FuncEntry | Mode::FuncExit);
+        // one replacement / removal per instruction
+        if matches!(mode, Mode::Alternate | Mode::EmptyAlternate)
+            && plan.sites.iter().any(|(k2, f2, s2, _)| *k2 == k as u32 && *f2 == func && s2.instr == instr && matches!(s2.mode, Mode::Alternate | Mode::EmptyAlternate))
+        {
+            continue;
+        }
+        let use_inject_at = rng.chance(1, 3) && !matches!(mode, Mode::FuncEntry | Mode::FuncExit | Mode::EmptyAlternate);
         if !use_inject_at && !matches!(mode, Mode::FuncEntry | Mode::FuncExit) && rng.chance(1, 4) {
             plan.far.push(plan.sites.len() as u32);
         }
@@ -367,6 +387,12 @@ fn set_mode<'a, T: IteratingInstrumenter<'a>>(it: &mut T, m: Mode) {
         }
         Mode::FuncExit => {
             it.func_exit();
+        }
+        Mode::Alternate => {
+            it.alternate();
+        }
+        Mode::EmptyAlternate => {
+            it.empty_alternate();
         }
         _ => {}
     }
